@@ -64,3 +64,21 @@ text("c08-swallow-in-send", "C08", RAW, "        response = self.mpm.decode(raw_
 text("c08-s-guard-rewritten", "C08", PDU, "if 0 < error_index.value <= len(varbinds):", "if error_index.value >= 1 and error_index.value - 1 < len(varbinds):", expect="silent")
 text("c08-s-raise-direct", "C08", PDU, "            exception = ErrorResponse.construct(\n                error_status.value, offending_oid or ObjectIdentifier()\n            )\n            raise exception", "            raise ErrorResponse.construct(\n                error_status.value, offending_oid or ObjectIdentifier()\n            )", expect="silent")
 text("c08-s-status-ne-zero", "C08", PDU, "        if error_status.value:\n", "        if error_status.value != 0:\n", expect="silent")
+
+# ---------------------------------------------------------------- C09
+HASHBASE = "puresnmp_plugins/auth/hashbase.py"
+patch("rev-D9-unauth-accepted", "C09", "809bbcd-fix__USM_refuses_unauthenticated_messages_for_users_that_req.diff")
+text("c09-ignore-result", "C09", USM, "    if not is_authentic:\n        raise AuthenticationError(\n            \"Incoming message could not be authenticated!\"\n        )", "    if not is_authentic:\n        pass")
+text("c09-is-none", "C09", USM, "    if not is_authentic:\n", "    if is_authentic is None:\n")
+text("c09-verify-dropped", "C09", USM, "        verify_authentication(message, credentials, security_params)\n", "")
+text("c09-verify-swallowed", "C09", USM, "        verify_authentication(message, credentials, security_params)\n", "        try:\n            verify_authentication(message, credentials, security_params)\n        except AuthenticationError:\n            pass\n")
+text("c09-user-check-dropped", "C09", USM, "        if security_name != credentials.username.encode(\"ascii\"):\n", "        if False:\n")
+text("c09-prefix-compare", "C09", HASHBASE, "        return received_digest == expected_digest\n", "        return expected_digest.startswith(received_digest)\n")
+text("c09-placeholder-len", "C09", USM, "    neutral = replace(secparams, auth_params=b\"\\x00\" * 12)", "    neutral = replace(secparams, auth_params=b\"\\x00\" * 16)")
+text("c09-raw-key-hmac", "C09", HASHBASE, "    auth_key = hasher(auth_key, engine_id)\n", "")
+text("c09-truncate-8", "C09", HASHBASE, "    return mac.digest()[:12]", "    return mac.digest()[:8]")
+text("c09-report-bypass", "C09", USM, "            validate_usm_message(cast(PlainMessage, message))\n        raise AuthenticationError(", "            validate_usm_message(cast(PlainMessage, message))\n            return\n        raise AuthenticationError(")
+text("c09-mpm-returns-unverified", "C09", V3, "        return msg.scoped_pdu.data\n", "        return message.scoped_pdu.data\n")
+text("c09-verify-only-if-priv", "C09", USM, "        verify_authentication(message, credentials, security_params)\n", "        if credentials.priv is not None:\n            verify_authentication(message, credentials, security_params)\n")
+text("c09-s-compare-digest", "C09", HASHBASE, "        return received_digest == expected_digest\n", "        return hmac.compare_digest(received_digest, expected_digest)\n", expect="silent")
+text("c09-s-direct-test", "C09", USM, "    is_authentic = auth_method.authenticate_incoming_message(\n        credentials.auth.key,\n        bytes(without_digest),\n        security_params.auth_params,\n        security_params.authoritative_engine_id,\n    )\n    if not is_authentic:", "    if not auth_method.authenticate_incoming_message(\n        credentials.auth.key,\n        bytes(without_digest),\n        security_params.auth_params,\n        security_params.authoritative_engine_id,\n    ):", expect="silent")
